@@ -222,8 +222,13 @@ class Engine(EngineBase):
                 entry = "Project.sync"
             else:
                 pair = rng.choice(cands)
+        # job level: the destination job directory exists but has lost its state point file (debris of an
+        # interrupted init); the handle knows the state point, a real sync re-creates the file, a dry run
+        # must not
+        bare = entry in ("Job.sync", "sync_jobs") and pair in dst_jobs and pair in src_jobs and rng.random() < 0.12
         return {"knobs": knobs, "src": {"doc": spd, "jobs": src_jobs}, "dst": {"doc": dpd, "jobs": dst_jobs},
-                "opts": opts, "entry": entry, "pair": pair, "precrash": precrash}
+                "opts": opts, "entry": entry, "pair": pair, "precrash": None if bare else precrash,
+                "dst_bare_sp": bare}
 
     def shrink(self, scenario):
         if scenario.get("precrash") is not None:
@@ -470,6 +475,7 @@ class Run:
             if jid in ms["jobs"]:
                 base = md["jobs"].get(jid) or {"sp": sp, "doc": {}, "files": {}}
                 exp["jobs"][jid] = sync_ref.sync_job(ms["jobs"][jid], base, o, conflicts)
+                exp["jobs"][jid]["sp"] = sp   # (re-)created by the sync if the file was missing
                 if conflicts and jid not in md["jobs"]:
                     pass
         return exp, conflicts
@@ -489,6 +495,12 @@ class Run:
         sp_, dp_ = world.p("src"), world.p("dst")
         build_project(signac, sp_, sc["src"])
         build_project(signac, dp_, sc["dst"])
+        if sc.get("dst_bare_sp") and sc["pair"] in sc["dst"]["jobs"]:
+            with world.observing():
+                f = os.path.join(dp_, "workspace", self.sel_id(sc["pair"]), SP_FILE)
+                if os.path.exists(f):
+                    O.unlink(f)
+                    self.probe("destination_job_without_statepoint_file")
         if sc.get("precrash") is not None and not self.precrash(sp_, dp_, o):
             return
         ms, md = project_model(sp_), project_model(dp_)
